@@ -482,7 +482,9 @@ class HTMLTokenizer(object):
         return True
 
     def rcdataEndTagNameState(self):
-        appropriate = self.currentToken and self.currentToken["name"].lower() == self.temporaryBuffer.lower()
+        appropriate = (self.currentToken and
+                       self.currentToken["name"].translate(asciiUpper2Lower) ==
+                       self.temporaryBuffer.translate(asciiUpper2Lower))
         data = self.stream.char()
         if data in spaceCharacters and appropriate:
             self.currentToken = {"type": tokenTypes["EndTag"],
@@ -532,7 +534,9 @@ class HTMLTokenizer(object):
         return True
 
     def rawtextEndTagNameState(self):
-        appropriate = self.currentToken and self.currentToken["name"].lower() == self.temporaryBuffer.lower()
+        appropriate = (self.currentToken and
+                       self.currentToken["name"].translate(asciiUpper2Lower) ==
+                       self.temporaryBuffer.translate(asciiUpper2Lower))
         data = self.stream.char()
         if data in spaceCharacters and appropriate:
             self.currentToken = {"type": tokenTypes["EndTag"],
@@ -585,7 +589,9 @@ class HTMLTokenizer(object):
         return True
 
     def scriptDataEndTagNameState(self):
-        appropriate = self.currentToken and self.currentToken["name"].lower() == self.temporaryBuffer.lower()
+        appropriate = (self.currentToken and
+                       self.currentToken["name"].translate(asciiUpper2Lower) ==
+                       self.temporaryBuffer.translate(asciiUpper2Lower))
         data = self.stream.char()
         if data in spaceCharacters and appropriate:
             self.currentToken = {"type": tokenTypes["EndTag"],
@@ -721,7 +727,9 @@ class HTMLTokenizer(object):
         return True
 
     def scriptDataEscapedEndTagNameState(self):
-        appropriate = self.currentToken and self.currentToken["name"].lower() == self.temporaryBuffer.lower()
+        appropriate = (self.currentToken and
+                       self.currentToken["name"].translate(asciiUpper2Lower) ==
+                       self.temporaryBuffer.translate(asciiUpper2Lower))
         data = self.stream.char()
         if data in spaceCharacters and appropriate:
             self.currentToken = {"type": tokenTypes["EndTag"],
